@@ -414,8 +414,13 @@ def run_reconfigure(case, env):
                     # checkout creates a default-format repository, whatever
                     # the format of the branch it referred to)
                     mine = _branch.Branch.open(path).repository
+                    theirs = parent.repository
+                    # (Repository._assert_same_model: rich-root support,
+                    # serializers, tree-reference support)
                     check(mine.supports_rich_root() !=
-                          parent.repository.supports_rich_root(),
+                          theirs.supports_rich_root() or
+                          getattr(mine, "_inventory_serializer", None) != getattr(
+                              theirs, "_inventory_serializer", None),
                           "C52/stacking-on-a-compatible-repository-refused",
                           [src, action["steps"], str(e)[:300]])
                     raise _rc.ReconfigurationNotSupported(cd) from None
